@@ -162,6 +162,28 @@ def Node.restart (n : Node) : Node :=
            memR := fun a => if (n.stR a).isSome || (n.stT a).isSome then max ((n.sLast a).getD 0) ((n.stR a).getD 0) else 0,
            memT := fun a => if (n.stR a).isSome || (n.stT a).isSome then (n.stT a).getD 0 else 0 }
 
+/-- `TrafficInit()` on a running node (the 24 h refresh): every address that has a persisted total is
+    reset to max(chain value = 0, last cheque, stored total); other addresses and the address book
+    are untouched.  Same restore rule as `restart`, without losing memory. -/
+def Node.refreshAll (n : Node) : Node :=
+  let inSet := fun a => (n.stR a).isSome || (n.stT a).isSome
+  { n with chq := fun a => if inSet a then (n.sLast a).getD 0 else n.chq a,
+           memR := fun a => if inSet a then max ((n.sLast a).getD 0) ((n.stR a).getD 0) else n.memR a,
+           memT := fun a => if inSet a then (n.stT a).getD 0 else n.memT a }
+
+/-- the `refresh` event of the harness on a quiescent node: a refresh overlapping one update of
+    address `a`.  Sequential semantics of the code that exists: the refresh reads the persisted
+    totals under the peer lock, so the update is applied (and persisted) after it.  The flag says
+    whether the refresh touched `a` at all (it only visits addresses with a persisted total). -/
+def Node.refreshUpdate (n : Node) (a : Nat) (d : Dir) (amt : Nat) : Node × Bool :=
+  let touched := (n.stR a).isSome || (n.stT a).isSome
+  let n1 := n.refreshAll
+  let (n2, v) := n1.enter 0 a d amt
+  let n3 : Node := match d with
+    | .retrieve => { n2 with stR := upd n2.stR a (some v) }
+    | .transfer => { n2 with stT := upd n2.stT a (some v) }
+  (n3, touched)
+
 /-- `Pay(peer, 1)` with delivery succeeding and ample chain balance; `none` = unknown peer -/
 def Node.pay (n : Node) (p : Nat) : Option (Node × Option Nat) :=
   match n.fwd p with
